@@ -20,6 +20,15 @@
 (*    the constructor's count is accepted too).  History independence: the result    *)
 (*    equals that of a fresh object built with eff.                                  *)
 (* 4. QGauss2: tensor-product rule.                                                  *)
+(* 5. Re-entrant and aliasing histories on one QGauss object (NestSucc): calls may   *)
+(*    begin while an earlier call on the same object is still in progress (iterated  *)
+(*    integrals), integrands may keep, re-read and overwrite the abscissa array they *)
+(*    were handed.  Every call, at every level of the nesting, is the weighted sum   *)
+(*    of Rule(eff) over the mapped abscissae, and an array handed to an integrand    *)
+(*    holds those abscissae until that integrand itself changes it.                  *)
+(* 6. What an integrand returns is broadcast against the abscissa grid (RetMap); how *)
+(*    end points, tabulated data and returned values are represented (container,     *)
+(*    element type, byte order, strides) does not matter (RepMayReject).             *)
 EXTENDS VU
 
 QNone == 0                      \* Python None for an npts argument
@@ -179,11 +188,116 @@ MechSetup(m, arg, variant) ==
                                      ELSE [m EXCEPT !.npts = arg])          \* rule computed once, never refreshed
     ELSE (* "always" *) [npts |-> arg, rulefor |-> arg]
 
-\* ---- QGauss2: tensor product ----------------------------------------------------------
+\* ---- re-entrant and aliasing histories on ONE QGauss object ------------------------------
+(* A history is a properly nested sequence of events; calls are numbered 1, 2, ... in the order *)
+(* they begin (id).                                                                            *)
+(*   [op |-> "enter", kind, arg]    call number Len(fr)+1 begins ("func" | "data"); setup()     *)
+(*                                   happens here, so the point count is fixed at entry         *)
+(*   [op |-> "eval", id, nabsc, nodes]  the integrand of call id is handed an array of nabsc    *)
+(*                                   numbers; nodes = the point counts e for which the array    *)
+(*                                   holds the nodes of Rule(e) mapped onto the call's interval *)
+(*   [op |-> "mutate", id]           the integrand of call id overwrites the array it was given *)
+(*   [op |-> "read", id, nodes]      the array handed to call id is read again: by its own      *)
+(*                                   integrand just before it returns (after any nested calls), *)
+(*                                   or by the caller, who kept it, after later calls           *)
+(*   [op |-> "exit", id, err, ok]    call id returns; ok = the point counts e for which the     *)
+(*                                   result is sum_i W(e)_i y_i for the values y the integrand  *)
+(*                                   returned ("func"), resp. the result of a fresh QGauss(e)   *)
+(*                                   on the same table ("data")                                 *)
+(* Property-level state: the cache machine, the stack of calls in progress and, per call, the   *)
+(* point count it was entered with (QNone: nothing to integrate with - any outcome) and whether *)
+(* its integrand has overwritten its array itself.                                              *)
+NestNew(ctor) == [cache |-> CacheNew(ctor), stack |-> <<>>, fr |-> <<>>]
+NestTop(n)    == IF n.stack = <<>> THEN 0 ELSE n.stack[Len(n.stack)]
+NestPush(n, cache, kind, e) ==
+    [cache |-> cache, stack |-> Append(n.stack, Len(n.fr) + 1), fr |-> Append(n.fr, [e |-> e, kind |-> kind, dirty |-> FALSE])]
+NestPop(n)    == [n EXCEPT !.stack = SubSeq(@, 1, Len(@) - 1)]
+NestWellFormed(n, ev) ==
+    IF ev.op = "enter" THEN TRUE
+    ELSE IF ev.op = "read" THEN ev.id \in 1..Len(n.fr)
+    ELSE ev.id = NestTop(n) /\ ev.id > 0
+NestSucc(n, ev) ==
+    IF ~NestWellFormed(n, ev) THEN {}
+    ELSE IF ev.op = "enter" THEN
+        LET E == EffSet(n.cache, ev.arg)
+        IN IF E = {} THEN {NestPush(n, n.cache, ev.kind, QNone)}
+           ELSE {NestPush(n, CacheAfter(n.cache, e), ev.kind, e) : e \in E}
+    ELSE LET f == n.fr[ev.id] IN
+         IF ev.op = "eval" THEN (IF f.e = QNone \/ (ev.nabsc = f.e /\ f.e \in VRange(ev.nodes)) THEN {n} ELSE {})
+         ELSE IF ev.op = "mutate" THEN {[n EXCEPT !.fr[ev.id].dirty = TRUE]}
+         ELSE IF ev.op = "read" THEN (IF f.e = QNone \/ f.dirty \/ f.e \in VRange(ev.nodes) THEN {n} ELSE {})
+         ELSE (* exit *) IF f.e = QNone THEN {NestPop(n)}
+                         ELSE IF ev.err = "none" /\ f.e \in VRange(ev.ok) THEN {NestPop(n)} ELSE {}
+NestClause(n, ev) ==                    \* name of the violated clause when NestSucc = {}
+    IF ~NestWellFormed(n, ev) THEN "malformed_trace"
+    ELSE IF ev.op = "eval" THEN (IF ev.nabsc # n.fr[ev.id].e THEN "uses_other_npts" ELSE "abscissae_not_mapped_nodes")
+    ELSE IF ev.op = "read" THEN (IF \E i \in 1..Len(n.stack) : n.stack[i] = ev.id THEN "abscissae_overwritten_during_call"
+                                 ELSE "abscissae_overwritten_after_return")
+    ELSE IF ev.op = "exit" THEN (IF ev.err # "none" THEN "unexpected_error"
+                                 ELSE IF n.fr[ev.id].kind = "data" THEN "history_dependent" ELSE "weighted_sum")
+    ELSE "unknown_event"
+
+(* implementation-shaped model of integrate_func / integrate_data under re-entrant use.          *)
+(* m = [npts, rulefor : as MechSetup, gen : number of scratch buffers allocated so far,           *)
+(*      fr : Seq([xi : array id, w : rule in force at entry]) per call,                            *)
+(*      arrs : Seq(content) indexed by array id; content <<k, e>> = "nodes of Rule(e) mapped to   *)
+(*             the interval of call k", <<0, 0>> = overwritten by an integrand]                    *)
+(* variants: "local"   abscissae in a fresh array per call, rule taken once at entry (correct)     *)
+(*           "reread"  fresh array per call, but the weights are read from the object again after  *)
+(*                     the integrand returned (self.wii)                                           *)
+(*           "scratch" ONE per-object work array for the mapped abscissae, re-allocated only when  *)
+(*                     npts changes, filled in place                                               *)
+NMechNew(ctor) == [npts |-> ctor, rulefor |-> ctor, gen |-> 0, buf |-> 0, fr |-> <<>>, arrs |-> <<>>]
+NMechEnter(m, arg, variant) ==          \* precondition: a point count is available
+    LET changed == arg # QNone /\ m.npts # arg
+        np      == IF arg # QNone THEN arg ELSE m.npts
+        k       == Len(m.fr) + 1
+        newarr  == variant # "scratch" \/ changed \/ m.buf = 0          \* a new array object is allocated
+        a       == IF newarr THEN Len(m.arrs) + 1 ELSE m.buf
+        arrs2   == IF newarr THEN Append(m.arrs, <<k, np>>) ELSE [m.arrs EXCEPT ![a] = <<k, np>>]
+    IN [npts |-> np, rulefor |-> np, gen |-> m.gen + (IF newarr THEN 1 ELSE 0),
+        buf |-> IF variant = "scratch" THEN a ELSE 0,
+        fr |-> Append(m.fr, [xi |-> a, w |-> np]), arrs |-> arrs2]
+NMechMutate(m, k)         == [m EXCEPT !.arrs[m.fr[k].xi] = <<0, 0>>]
+NMechWeights(m, k, variant) == IF variant = "reread" THEN m.rulefor ELSE m.fr[k].w
+NMechArray(m, k)          == m.arrs[m.fr[k].xi]
+
 \* shapes are pairs <<rows, cols>>; <<0,0>> = broadcast error
 QBcast(s, t) ==
     LET d(i) == IF s[i] = t[i] THEN s[i] ELSE IF s[i] = 1 THEN t[i] ELSE IF t[i] = 1 THEN s[i] ELSE 0
     IN IF s = <<0, 0>> \/ t = <<0, 0>> \/ d(1) = 0 \/ d(2) = 0 THEN <<0, 0>> ELSE <<d(1), d(2)>>
+
+\* ---- what an integrand may return: numpy broadcasting against the abscissa grid ----------------
+\* the grid of a QGauss2(nx,ny) call has shape <<ny, nx>>, that of a 1-d call <<1, n>>; a returned
+\* shape sh (<<>> scalar / 0-d, <<m>>, <<r, c>>) is aligned at the trailing axis
+QPad2(sh)        == IF Len(sh) = 0 THEN <<1, 1>> ELSE IF Len(sh) = 1 THEN <<1, sh[1]>> ELSE sh
+RetFits(sh, grid) == Len(sh) <= 2 /\ QBcast(QPad2(sh), grid) = grid
+RetIsFull(sh, grid, dim) == Len(sh) = dim /\ QPad2(sh) = grid
+\* 1-based row-major position, in the returned values, of the value that belongs to grid cell (j, i)
+RetCell(sh, j, i) == LET p == QPad2(sh) IN ((IF p[1] = 1 THEN 1 ELSE j) - 1) * p[2] + (IF p[2] = 1 THEN 1 ELSE i)
+RetMap(sh, grid)  == [q \in 1..(grid[1] * grid[2]) |-> RetCell(sh, ((q - 1) \div grid[2]) + 1, ((q - 1) % grid[2]) + 1)]
+RetCount(sh)      == LET p == QPad2(sh) IN p[1] * p[2]
+
+\* representations (container / element type / layout) of end points, tables and returned values:
+\* the statement speaks of intervals, data and integrands, not of numpy types, so none may change a
+\* result; python sequences where the code documents arrays may be rejected
+RepMayReject(rep) == rep \in {"list", "tuple"}
+
+(* r = [dim : 1 | 2, nx, ny (1 for dim 1), sh, rep, err, finite,                                   *)
+(*      val : BOOLEAN (result = sum over the grid of W_ji * v[RetMap(sh, grid)[j, i]], to rounding, *)
+(*            W = the weights extracted from a fresh object with full-shape indicator integrands), *)
+(*      isconst : BOOLEAN, cn, cd : the constant returned = cn/cd, ax, bx, ay, by : integer end     *)
+(*      points (ay = 0, by = 1 for dim 1), cexact : rational | QOff (the result projected onto the  *)
+(*      exact integral of the constant under the property's tolerance)]                             *)
+RetFailing(r) ==
+    LET grid == <<r.ny, r.nx>> IN
+    IF ~RetFits(r.sh, grid) THEN {}                                      \* not an integrand value: any outcome
+    ELSE IF r.err # "none" THEN (IF RetIsFull(r.sh, grid, r.dim) /\ ~RepMayReject(r.rep) THEN {"unexpected_error"} ELSE {})
+    ELSE IF ~r.finite THEN {"nonfinite"}
+    ELSE (IF r.val THEN {} ELSE {"broadcast_sum"}) \cup
+         (IF r.isconst => r.cexact = RMul(RNorm(r.cn, r.cd), RInt((r.bx - r.ax) * (r.by - r.ay))) THEN {} ELSE {"constant_integral"})
+
+\* ---- QGauss2: tensor product ----------------------------------------------------------
 \* QGauss2._setup: meshgrid(x, y) has shape (ny, nx); the weight grids start from ones(shape0)
 TensorMech(nx, ny, fixed) ==
     LET shape0 == IF fixed THEN <<ny, nx>> ELSE <<nx, ny>>
@@ -208,8 +322,9 @@ TensorFailing(t) ==
 \* rounding), tab : rational table, exact : rational|QOff (the result projected onto the exact
 \* integral of the table under the property's tolerance; demanded when the table is linear:
 \* every GL rule integrates a polynomial of degree 1 exactly)]
+\* xrep, yrep: how the table was handed over (RepMayReject)
 DataFailing(d) ==
-    IF d.err # "none" THEN {"unexpected_error"}
+    IF d.err # "none" THEN (IF RepMayReject(d.xrep) \/ RepMayReject(d.yrep) THEN {} ELSE {"unexpected_error"})
     ELSE IF ~d.finite THEN {"nonfinite"}
     ELSE (IF d.val THEN {} ELSE {"interpolated_sum"}) \cup
          (IF QIsLinear(d.tab) => d.exact = QTrapz(d.tab) THEN {} ELSE {"linear_table_integral"})
